@@ -84,6 +84,35 @@ def check(run):
               "init_leaves": "rln init_leaves", "root": "rln root", "count": "rln leaves_set", "path": "rln get_proof", "leaf": "rln get_leaf", "empty": "rln empty"}
         mseqs.append(["rln new"] + [" ".join([tr[l.split(" ")[0]]] + l.split(" ")[1:]) for l in lines])
     run.differential("tree-histories-vs-model", mseqs, shrink=False)
+    # ---- a DENSE random workload on the full-size tree: tens of thousands of single-leaf writes at uniformly random positions of the
+    #      depth-20 tree, root after every 500 writes and paths of written positions at the end — what shows aliasing between nodes
+    #      (a storage key that is not injective on big trees) or any other defect that needs many populated subtrees
+    nw = 30000 if quick else 150000
+    wl, written = [], []
+    for j in range(nw):
+        i = rng.randrange(1 << 20)
+        written.append(i)
+        wl.append(f"set {hex(i)} {hex(rng.getrandbits(64) + 1)}")
+        if j % 500 == 499:
+            wl.append("root")
+    wl += ["root", "count"] + [f"path {hex(i)}" for i in rng.sample(written, 40)] + [f"leaf {hex(i)}" for i in rng.sample(written, 40)]
+    douts = {c: core.run_bin(B[c], wl, timeout=6000) for c in ("full", "optimal")}
+    if not quick:
+        douts["pm"] = core.run_bin(B["pm"], wl, timeout=12000)
+    else:
+        # the persistent backend is an order of magnitude slower per write: a prefix of the same workload
+        cut = next(k for k, l in enumerate(wl) if l == "root" and k > 6000)
+        douts["pm"] = core.run_bin(B["pm"], wl[:cut + 1], timeout=6000)
+    run.count_case(("dense", nw))
+    run.cov["traces_validated_against_impl"] += 1
+    run.cov["dense_workload_writes"] = nw
+    ref = douts["full"]
+    for c in ("optimal", "pm"):
+        o = douts[c]
+        k = next((k for k in range(min(len(o), len(ref))) if o[k] != ref[k] and not wl[k].startswith("set ")), None)
+        if k is not None:
+            run.violation({"property": run.pid, "kind": "impl-vs-spec", "stream": "dense-workload", "ops": wl[:k + 1] if k < 400 else wl[:3] + [f"… ({k} lines of this seeded workload; re-run the check)"] + [wl[k]],
+                           "detail": f"configurations full and {c} disagree on line {k} `{wl[k]}` of the dense workload: {ref[k][:80]} vs {o[k][:80]}", "impl_args": ["dense"]})
     # ---- same history under every tree backend: roots, leaf counts, membership paths; then messages exchanged
     nhist = 4 if quick else 30
     for h in range(nhist):
@@ -155,4 +184,4 @@ def check(run):
                 run.violation({"property": run.pid, "kind": "impl-vs-spec", "stream": "cross-verify", "ops": [f"verify_roots {hx(full)} {hx(root)}"],
                                "detail": f"the stateless verifier, given the producer's root, answers {o} for a message produced under `{producer}`"})
     run.sample({"history": hist[:6], "configs": list(B)})
-    run.rules.append("five builds of one small program (features: default/pmtree, fullmerkletree, none/optimal, arkzkey, stateless) against the current /repo: zkey vs arkzkey compared with == inside the arkzkey build and by digest across builds; many tree-only histories through every mutator of the RLN API (single writes, appends, deletions, set_leaves_from, init_tree_with_leaves, atomic batches outside the open C08 shapes; write-then-delete patterns around 1024-aligned blocks, explicit zero leaves) with root and leaf count after every call, paths, leaves and the empty list at the end, compared across the four tree builds and with model and specification; random histories of single-leaf writes, appends and deletions replayed under every tree backend with roots, leaf counts, membership paths and the exported witness compared byte for byte (and against model and specification); a message proved under each configuration (the stateless one from the exported witness) verified under every other with the same history, and by the stateless verifier given the producer's root; distinct = distinct history")
+    run.rules.append("five builds of one small program (features: default/pmtree, fullmerkletree, none/optimal, arkzkey, stateless) against the current /repo: zkey vs arkzkey compared with == inside the arkzkey build and by digest across builds; a dense workload of 30 000 (thorough 150 000) single-leaf writes at uniformly random positions of the depth-20 tree with the root after every 500 writes and 40 paths / leaves at the end, compared across the tree builds; many tree-only histories through every mutator of the RLN API (single writes, appends, deletions, set_leaves_from, init_tree_with_leaves, atomic batches outside the open C08 shapes; write-then-delete patterns around 1024-aligned blocks, explicit zero leaves) with root and leaf count after every call, paths, leaves and the empty list at the end, compared across the four tree builds and with model and specification; random histories of single-leaf writes, appends and deletions replayed under every tree backend with roots, leaf counts, membership paths and the exported witness compared byte for byte (and against model and specification); a message proved under each configuration (the stateless one from the exported witness) verified under every other with the same history, and by the stateless verifier given the producer's root; distinct = distinct history")
